@@ -74,7 +74,9 @@ PROPS = {
         "lean_modules": ["SqlizeModel.Props.C01"],
         "theorems": ["Sqlize.C01.columns", "Sqlize.Abs.columns_up", "Sqlize.Abs.Merge.merge_correct", "Sqlize.Abs.emitUp_correct", "Sqlize.C01.printed_columns", "Sqlize.walkCols_up_refines", "Sqlize.C01.diffed_columns", "Sqlize.Table.diffCols2_names", "Sqlize.Table.diff_cols_tagged", "Sqlize.C01.columns_from_scripts", "Sqlize.columns_end_to_end",
                      "Sqlize.C01.indexes_and_keys_from_scripts", "Sqlize.elems_end_to_end", "Sqlize.Abs.Idx.emit_correct", "Sqlize.Abs.Idx.emitKeep_correct",
-                     "Sqlize.Table.walkIdx_refines", "Sqlize.Table.walkFk_refines", "Sqlize.Table.diff_elems"],
+                     "Sqlize.Table.walkIdx_refines", "Sqlize.Table.walkFk_refines", "Sqlize.Table.diff_elems",
+                     "Sqlize.C01.indexes_with_dropped_columns", "Sqlize.Abs.Idx.plan_correct", "Sqlize.Abs.Idx.emitSup_correct", "Sqlize.Abs.Idx.dropCols_idxs",
+                     "Sqlize.Table.walkIdx_refines_sup", "Sqlize.Spec.execAll_wf"],
         "suites": [{"name": "pair"}],
         "corr_points": ["load-old", "load-new", "state-old", "state-new", "Diff", "state-diff", "StringUp"],
         "rule": PAIR_RULE,
@@ -84,8 +86,10 @@ PROPS = {
                        "(printed_columns, diffed_columns); end to end from two scripts of any length through the MySQL reader model, Migration.Diff and the "
                        "walks: the ADD/DROP COLUMN statements turn the reference engine's old column order into the new one (columns_from_scripts), the "
                        "CREATE/DROP INDEX statements its old index list into the new one up to order, the ADD/DROP foreign-key statements its old key list "
-                       "into the new one unless a key is redefined in place (indexes_and_keys_from_scripts). Not proved: column attributes (MODIFY), the primary "
-                       "key, drop suppression of indexes on dropped columns, other dialects; the full statement Sqlize.C01.Statement(_partial) is decided on "
+                       "into the new one unless a key is redefined in place (indexes_and_keys_from_scripts); with dropped columns the index statements printed with "
+                       "the dropped-column list turn what the DROP COLUMNs leave of the old index list into the new one, unless an index is redefined while all its "
+                       "old columns are dropped = the recorded finding (indexes_with_dropped_columns). Not proved: column attributes (MODIFY), the primary "
+                       "key, other dialects; the full statement Sqlize.C01.Statement(_partial) is decided on "
                        "every run by correspondence (model = code on state and text) plus the "
                        "executable predicate Spec.c01 (reference DDL engine) on the migration text the Go code printed.",
     },
